@@ -2,6 +2,8 @@ import KoordVerif.Proofs.C05Ledger
 import KoordVerif.Proofs.C05Index
 import KoordVerif.Proofs.C05ExtPod
 import KoordVerif.Proofs.C05ExtPipe
+import KoordVerif.Proofs.C05ExtProf
+import KoordVerif.Proofs.C05ExtProf2
 /-
 C05 — reservations are never over-allocated and only serve their owners.
 
@@ -397,5 +399,147 @@ def exCtx : MatchCtx :=
     tolerateUnsch := false, taintBad := false, affinity := true }
 example : checkMatched exCtx (matchOwners false [{ obj := true, ctrl := true, lbl := true }]) = true := by decide
 example : checkMatched exCtx (matchOwners false [{ obj := true, ctrl := false, lbl := true }]) = false := by decide
+
+/-! ## 7. several scheduler profiles (one reservation cache per profile, one informer) -/
+
+/-- for ONE profile's cache it does not matter whether the scheduler-wide handler (DeleteReservation on every
+    registered cache) or the profile's own plugin handler processes an informer event first -/
+theorem listener_order_irrelevant (c : Cache) (e : REv) (hok : EvOK e) : evStep true c e = evStep false c e :=
+  global_plugin_commute c e hok
+
+/-- ALL PROFILES IN SYNC: start k profiles with empty caches and deliver ANY history of reservation informer events
+    (add / update / delete, object and tombstone shapes, valid or not) and broadcast pod events, each event in ANY
+    listener order (`x.2 i` = profile i saw the global handler first): every profile's cache equals the cache of the
+    single-cache model after the corresponding ops — no profile is ever left behind -/
+theorem all_profiles_in_sync (k : Nat) (ms : List (MEv × (Nat → Bool))) (hok : ∀ x ∈ ms, EvOK x.1.ev) :
+    runProfiles (List.replicate k Cache.empty) (ms.map (fun x => (x.1.ev, x.2))) =
+      List.replicate k (run Cache.empty ((ms.map (·.1)).flatMap MEv.ops)) := by
+  rw [runProfiles_replicate k _ Cache.empty (by
+    intro y hy
+    simp only [List.mem_map] at hy
+    obtain ⟨x, hx, rfl⟩ := hy
+    exact hok x hx)]
+  rw [← runRef_is_run]
+  simp [List.map_map, Function.comp_def]
+
+/-- … hence the index invariant (no dangling entry, every live reservation listed) holds in EVERY profile … -/
+theorem all_profiles_index_inv (k : Nat) (ms : List (MEv × (Nat → Bool))) (hok : ∀ x ∈ ms, EvOK x.1.ev)
+    (hadm : Admissible IndexPre Cache.empty ((ms.map (·.1)).flatMap MEv.ops)) :
+    ∀ c ∈ runProfiles (List.replicate k Cache.empty) (ms.map (fun x => (x.1.ev, x.2))), IndexInv c := by
+  rw [all_profiles_in_sync k ms hok]
+  intro c hc
+  rw [(List.mem_replicate.mp hc).2]
+  exact run_preserves IndexPre IndexInv index_step _ Cache.empty index_empty hadm
+
+/-- … and so does the exact ledger -/
+theorem all_profiles_ledger_exact (k : Nat) (ms : List (MEv × (Nat → Bool))) (hok : ∀ x ∈ ms, EvOK x.1.ev)
+    (hadm : Admissible LedgerPre Cache.empty ((ms.map (·.1)).flatMap MEv.ops)) :
+    ∀ c ∈ runProfiles (List.replicate k Cache.empty) (ms.map (fun x => (x.1.ev, x.2))),
+      ∀ r ∈ c.infos, ∀ d, r.allocated d = sumReq r.names r.assigned d := by
+  rw [all_profiles_in_sync k ms hok]
+  intro c hc
+  rw [(List.mem_replicate.mp hc).2]
+  have := run_preserves LedgerPre LedgerInv ledger_step _ Cache.empty
+    (by intro r hr; simp [Cache.empty] at hr) hadm
+  intro r hr d
+  exact (this r hr).1 d
+
+/-- a Delete event (object or tombstone) for a placed reservation removes it from the primary map of EVERY profile,
+    from ANY state of the profiles and in ANY listener order … -/
+theorem deleted_absent_in_every_profile (cs : List Cache) (kind : Nat) (o : RObj) (gf : Nat → Bool)
+    (hk : toRsv kind = true) (hn : o.node ≠ 0) :
+    ∀ c ∈ deliverAll cs (.del kind o) gf, findInfo c o.uid = none := by
+  intro c' hc'
+  obtain ⟨c, _, b, hb⟩ := mem_deliverFrom _ gf cs 0 c' hc'
+  rw [hb]
+  exact evStep_del_absent b c kind o hk hn
+
+/-- … and then (index invariant) none of the three per-node indexes of that profile references it any more -/
+theorem deleted_not_indexed (c : Cache) (h : IndexInv c) (u : Nat) (hf : findInfo c u = none) :
+    ∀ n, (n, u) ∉ c.onNode ∧ (n, u) ∉ c.matchable ∧ (n, u) ∉ c.allocIdx :=
+  absent_not_indexed c h u hf
+
+/-- the same for the two update transitions that end a cached reservation (available -> Succeeded/Failed,
+    available -> unassigned) when the new object is valid: the global handler targets the old object -/
+theorem ended_targets_every_profile (valid : Bool) (o n : RObj) (hv : valid = true) (ho : o.available = true)
+    (hn : n.terminated = true ∨ n.unassigned = true) :
+    globTarget (.upd 0 0 valid o n) = some (o.uid, o.node) := by
+  have hon : o.node ≠ 0 := by simp [RObj.available] at ho; exact ho.1
+  have hou : o.unassigned = false := by simp [RObj.unassigned, hon]
+  have hot : o.terminated = false := by
+    simp [RObj.available] at ho
+    simp [RObj.terminated, ho.2]
+  have hna : n.available = false := by
+    rcases hn with h | h
+    · simp [RObj.terminated] at h
+      simp [RObj.available]
+      intro _
+      rcases h with h | h <;> simp [h]
+    · simp [RObj.unassigned] at h
+      simp [RObj.available, h.1]
+  rcases hn with h | h
+  · simp [globTarget, toRsv, gUpdateDeletes, hv, ho, hna, hou, hot, h, hon]
+  · have hnt : n.terminated = false := by simp [RObj.unassigned] at h; simpa [RObj.terminated] using h.2
+    simp [globTarget, toRsv, gUpdateDeletes, hv, ho, hna, hou, hot, h, hnt, hon]
+
+def mpObj : RObj :=
+  { uid := 1, node := 2, phase := 1, once := false, term := false, policy := 2, optKind := 0, opt := fun _ => false,
+    tmpl := fun _ => 900, tmplHas := fun _ => true, st := fun _ => 900, stHas := fun _ => true, maxPods := -1,
+    reserved := vzero, ownBad := false }
+/-- two profiles that both cached reservation 1 on node 2 -/
+def mpTwo : List Cache := deliverAll [Cache.empty, Cache.empty] (.add 0 true mpObj) (fun _ => false)
+
+/-- why the loop must visit EVERY registered cache (seeded change C05-f: `break` after the first cache that returned
+    a ReservationInfo): after the Delete event the second profile still holds the deleted reservation in its primary
+    map and in reservationsOnNode / matchableOnNode (as a Failed entry), while the loop as written empties both -/
+theorem early_break_leaves_profile_behind_counterexample :
+    (deliverBreak mpTwo (.del 0 mpObj)).map (fun c => (c.infos.map (·.uid), c.onNode)) = [([], []), ([1], [(2, 1)])] ∧
+    (deliverAll mpTwo (.del 0 mpObj) (fun i => i == 0)).map (fun c => (c.infos.map (·.uid), c.onNode, c.matchable))
+      = [([], [], []), ([], [], [])] := by decide
+
+/-- non-vacuity: a two-profile history (add placed, pod bound to it, ended by an update, deleted by tombstone) in mixed
+    listener orders satisfies the hypotheses; in between both profiles list the reservation -/
+def mpHist : List (MEv × (Nat → Bool)) :=
+  [(.rsv (.add 0 true mpObj) (fun _ h => by cases h), fun i => i == 1),
+   (.all (.hadd { pod := { uid := 7, empty := false, req := fun _ => 137 }, node := 2, term := false, rAlloc := 1 }), fun _ => false),
+   (.rsv (.upd 0 0 true mpObj { mpObj with phase := 3 }) (fun _ h => by cases h), fun i => i == 0),
+   (.rsv (.del 1 { mpObj with phase := 3 }) (fun _ h => by cases h), fun _ => true)]
+
+example : ∀ x ∈ mpHist, EvOK x.1.ev := by decide
+example : Admissible IndexPre Cache.empty ((mpHist.map (·.1)).flatMap MEv.ops) := by
+  refine ⟨?_, trivial, ?_, ?_, ?_, ?_, trivial⟩ <;> decide
+example : (runProfiles (List.replicate 2 Cache.empty) ((mpHist.take 2).map (fun x => (x.1.ev, x.2)))).map
+    (fun c => (c.onNode, c.allocIdx, c.infos.map (fun r => r.allocated 0))) = List.replicate 2 ([(2, 1)], [(2, 1)], [137]) := by decide
+example : (runProfiles (List.replicate 2 Cache.empty) (mpHist.map (fun x => (x.1.ev, x.2)))).map
+    (fun c => (c.infos.length, c.onNode)) = [(0, []), (0, [])] := by decide
+
+/-- COMPLETENESS in every profile: an Add or Update event that carries a LIVE reservation (node set, Available or
+    Waiting; same uid and node as before) leaves it in the primary map and listed under its node in EVERY profile,
+    from any state and in any listener order (the scheduler-wide handler never deletes on such an event) -/
+theorem live_listed_in_every_profile (cs : List Cache) (e : REv) (o : RObj) (gf : Nat → Bool)
+    (he : (∃ valid, e = .add 0 valid o) ∨ (∃ valid old, e = .upd 0 0 valid old o ∧ EvOK e)) (ha : o.active = true) :
+    ∀ c ∈ deliverAll cs e gf, (o.node, o.uid) ∈ c.onNode ∧ (findInfo c o.uid).isSome = true := by
+  intro c' hc'
+  obtain ⟨c, _, b, hb⟩ := mem_deliverFrom _ gf cs 0 c' hc'
+  have hn := active_node o ha
+  rcases he with ⟨valid, rfl⟩ | ⟨valid, old, rfl, hok⟩
+  · rw [hb, evStep_live_add b c valid o ha]; exact updateReservation_lists c o hn
+  · rw [hb, evStep_live_upd b c valid old o hok ha]; exact updateReservation_lists c o hn
+
+example : ∀ c ∈ deliverAll mpTwo (.upd 0 0 true mpObj { mpObj with phase := 2 }) (fun i => i == 1),
+    (2, 1) ∈ c.onNode := by decide
+
+/-- why EvOK excludes a node change of a cached reservation ("case 5: available -> available with different nodeName",
+    which updateReservationInSchedulerCache turns into delete(old)-then-add(new)): the result depends on the listener
+    order.  Global handler first: the plugin re-creates the reservation on node 3.  Plugin handler first (its listener
+    is registered first): the ReservationInfo is deleted afterwards while reservationsOnNode / matchableOnNode keep
+    (3, 1) — index entries without a reservation, and a live reservation that is not in the cache.  Reproduced on the
+    unchanged code (two real plugins, handlers called in that order); reported, not generated (IndexPre). -/
+theorem node_migration_listener_order_counterexample :
+    ¬ EvOK (.upd 0 0 true mpObj { mpObj with node := 3 }) ∧
+    (mpTwo.map (fun c => evStep true c (.upd 0 0 true mpObj { mpObj with node := 3 }))).map
+      (fun c => (c.infos.map (·.uid), c.onNode, c.matchable)) = List.replicate 2 ([1], [(3, 1)], [(3, 1)]) ∧
+    (mpTwo.map (fun c => evStep false c (.upd 0 0 true mpObj { mpObj with node := 3 }))).map
+      (fun c => (c.infos.map (·.uid), c.onNode, c.matchable)) = List.replicate 2 ([], [(3, 1)], [(3, 1)]) := by decide
 
 end KoordVerif.C05
